@@ -1,4 +1,113 @@
-From Coq Require Import List NArith.
-Theorem c12_placeholder : (1 + 1 = 2)%N.
-Proof. reflexivity. Qed.
-Print Assumptions c12_placeholder.
+(* C12  Disk writes happen exactly when policy and placement advice say so.
+   [ksubs s] is the list of versions handed to the disk tier as cache entries (Submission::CacheEntry), in order;
+   the flusher writes each of them exactly once and nothing else (checked against the implementation's device
+   writes by the correspondence).  Statements are per step of the one-key model (Hybrid/Engine.v) and hold in every
+   state, so they hold along every history. *)
+From Coq Require Import List NArith Bool.
+From FV Require Fetch.Fetch Fetch.FetchOrder.
+From FV Require Import Hybrid.Engine Hybrid.EngineInv Hybrid.EngineThms.
+Import ListNotations.
+Open Scope N_scope.
+
+(* write-on-insertion *)
+Theorem c12_woi_insert_written : forall c s l,
+  woi c = true -> accepts c = true -> l <> LInMem -> ksubs (do_insert c s l) = ksubs s ++ [knext s].
+Proof. exact woi_insert_submits. Qed.
+Print Assumptions c12_woi_insert_written.
+
+Theorem c12_woi_eviction_writes_nothing : forall c s, woi c = true -> ksubs (do_evict c s) = ksubs s.
+Proof. exact woi_evict_submits_nothing. Qed.
+Print Assumptions c12_woi_eviction_writes_nothing.
+
+(* write-on-eviction *)
+Theorem c12_woe_insert_writes_nothing : forall c s l,
+  woi c = false -> l <> LOnDisk -> ksubs (do_insert c s l) = ksubs s.
+Proof. exact woe_insert_submits_nothing. Qed.
+Print Assumptions c12_woe_insert_writes_nothing.
+
+Theorem c12_woe_eviction_written : forall c s v l a,
+  woi c = false -> accepts c = true -> kmem s = Some (v, l, a) -> l <> LInMem -> a <> Young ->
+  ksubs (do_evict c s) = ksubs s ++ [v].
+Proof. exact woe_evict_submits. Qed.
+Print Assumptions c12_woe_eviction_written.
+
+(* an entry loaded from disk is rewritten only if its block was marked for imminent reclaim (age Old, not Young) *)
+Theorem c12_young_not_rewritten : forall c s v l, kmem s = Some (v, l, Young) -> ksubs (do_evict c s) = ksubs s.
+Proof. exact young_not_rewritten. Qed.
+Print Assumptions c12_young_not_rewritten.
+
+(* in-memory-only advice never reaches the disk: not at insert, not at eviction, not at close *)
+Theorem c12_inmem_insert : forall c s, ksubs (do_insert c s LInMem) = ksubs s.
+Proof. exact inmem_insert_submits_nothing. Qed.
+Print Assumptions c12_inmem_insert.
+Theorem c12_inmem_eviction : forall c s v a, kmem s = Some (v, LInMem, a) -> ksubs (do_evict c s) = ksubs s.
+Proof. exact inmem_evict_submits_nothing. Qed.
+Print Assumptions c12_inmem_eviction.
+Theorem c12_inmem_close : forall c s b v a, kmem s = Some (v, LInMem, a) -> ksubs (do_close c s b) = ksubs s.
+Proof.
+  intros c s b v a Hm. destruct (foc c) eqn:Hf; [destruct (woi c) eqn:Hw|].
+  - apply close_without_flush_submits_nothing; auto.
+  - rewrite close_with_flush_submits; auto. eapply inmem_evict_submits_nothing; eauto.
+  - apply close_without_flush_submits_nothing; auto.
+Qed.
+Print Assumptions c12_inmem_close.
+
+(* on-disk advice: not retained in memory, written if admitted *)
+Theorem c12_ondisk_not_retained : forall c s, kmem (do_insert c s LOnDisk) = None.
+Proof. exact ondisk_not_retained. Qed.
+Print Assumptions c12_ondisk_not_retained.
+Theorem c12_ondisk_written : forall c s, accepts c = true -> ksubs (do_insert c s LOnDisk) = ksubs s ++ [knext s].
+Proof. exact ondisk_submitted. Qed.
+Print Assumptions c12_ondisk_written.
+
+(* rejected by the admission filter: never written *)
+Theorem c12_rejected_insert : forall c s l, accepts c = false -> ksubs (do_insert c s l) = ksubs s.
+Proof. exact rejected_not_submitted_insert. Qed.
+Print Assumptions c12_rejected_insert.
+Theorem c12_rejected_eviction : forall c s, accepts c = false -> ksubs (do_evict c s) = ksubs s.
+Proof. exact rejected_not_submitted_evict. Qed.
+Print Assumptions c12_rejected_eviction.
+
+(* cache hits (and misses) cause no disk writes; neither do remove, the flusher, the reclaimer *)
+Theorem c12_lookup_writes_nothing : forall s i a,
+  ksubs (do_load_start s i) = ksubs s /\ ksubs (do_load_finish s i a) = ksubs s.
+Proof. exact lookup_submits_nothing. Qed.
+Print Assumptions c12_lookup_writes_nothing.
+Theorem c12_background_creates_nothing : forall c s b fuel,
+  ksubs (do_flush c s b) = ksubs s /\ ksubs (do_complete s) = ksubs s /\ ksubs (do_reclaim c s b) = ksubs s /\
+  ksubs (drain c fuel b s) = ksubs s /\ ksubs (do_remove s) = ksubs s.
+Proof.
+  intros. repeat split; [apply subs_flush|apply subs_complete|apply subs_reclaim|apply subs_drain].
+Qed.
+Print Assumptions c12_background_creates_nothing.
+
+(* close: nothing is written with flush-on-close off (or under write-on-insertion); with it on, what an eviction
+   of the resident entry would write *)
+Theorem c12_close_without_flush : forall c s b, foc c = false \/ woi c = true -> ksubs (do_close c s b) = ksubs s.
+Proof. exact close_without_flush_submits_nothing. Qed.
+Print Assumptions c12_close_without_flush.
+Theorem c12_close_with_flush : forall c s b, foc c = true -> woi c = false -> ksubs (do_close c s b) = ksubs (do_evict c s).
+Proof. exact close_with_flush_submits. Qed.
+Print Assumptions c12_close_with_flush.
+
+(* the origin fetch runs only after memory missed and the disk lookup missed or failed (M-FETCH, Fetch/Fetch.v:
+   [started] lists the origin fetches whose future was built) *)
+Theorem c12_memory_hit_starts_no_fetch : forall s c k ho hr pn v,
+  Fetch.mlookup k (Fetch.mem s) = Some v -> Fetch.started (Fetch.call false s c k ho hr pn) = Fetch.started s.
+Proof. exact FetchOrder.memory_hit_starts_nothing. Qed.
+Print Assumptions c12_memory_hit_starts_no_fetch.
+Theorem c12_disk_lookup_goes_first : forall s c k hr pn,
+  Fetch.started (Fetch.call false s c k true hr pn) = Fetch.started s.
+Proof. exact FetchOrder.disk_stage_first. Qed.
+Print Assumptions c12_disk_lookup_goes_first.
+Theorem c12_fetch_only_after_disk_miss : forall s t o,
+  Fetch.started (Fetch.poll_opt s t o) <> Fetch.started s -> o = Fetch.OMiss \/ o = Fetch.OErr.
+Proof. exact FetchOrder.origin_fetch_only_after_disk_miss. Qed.
+Print Assumptions c12_fetch_only_after_disk_miss.
+
+Example c12_nonvacuous :
+  let woe := mkCfg false true false false true false in
+  let wi := mkCfg true true false false true false in
+  ksubs (krun woe init_k [KIns LDefault; KIns LDefault; KEvict; KIns LInMem; KEvict; KIns LOnDisk]) = [2; 4] /\
+  ksubs (krun wi init_k [KIns LDefault; KIns LDefault; KEvict; KIns LInMem; KEvict; KIns LOnDisk]) = [1; 2; 4].
+Proof. vm_compute. split; reflexivity. Qed.
